@@ -30,6 +30,28 @@ def sibling_control(match_keys, vary_key):
     return f
 
 
+def latest_proof_control(e, g):
+    """C08: the same call with a proof from the newest set"""
+    if not e['exp']['ok'] or 'proof' not in e['act']:
+        return None
+    latest = e['pre']['hashByEpoch'][-1] if e['pre'].get('hashByEpoch') else None
+    if latest is None or e['act']['proof']['set'] == latest:
+        return None
+    for ei in g.out[e['_pre']]:
+        b = g.edges[ei]['act']
+        if g.edges[ei]['exp']['ok'] and b['name'] == e['act']['name'] and b.get('proof', {}).get('set') == latest \
+                and all(b.get(k) == e['act'].get(k) for k in ('new', 'bypass', 'auth', 'msgs', 'data')):
+            return [b]
+    return None
+
+
+def wait_longer_control(e, g):
+    """C09: the same rotation after waiting well past the delay"""
+    if not e['exp']['ok'] or e['act']['name'] != 'RotateSigners':
+        return None
+    return [{"name": "Tick", "dt": 50}, e['act']]
+
+
 PROPS = {
     "C02": {
         "title": "Each message is approved once and executed once, only by its destination",
@@ -69,6 +91,32 @@ PROPS = {
         "rule": "cases = transitions of the bounded TLC instance replayed against the contracts; distinct = distinct (abstract pre-state, action) pairs; each is a rotation or construction attempt",
         "assumptions": ["soroban-env-host test mode implements on-chain semantics", "u128 weights on a lattice: abstract w -> w*(2^128-1)/15, so overflow and threshold comparisons coincide exactly",
                         "bounds: 13 candidate sets, <= 5 epochs, retention 1, delay 0"],
+    },
+    "C08": {
+        "title": "Old signer sets stay valid for exactly the configured number of rotations",
+        "policy": {"guards": ["retention", "latest_or_bypass"], "fields": [], "events": [], "rets": ["ValidateProof"]},
+        "jobs": [
+            {"kind": "graph", "spec": "MC_C08", "cfg": "MC_C08_r%s" % r, "module": "Gateway", "evkinds": GW_EVENTS,
+             "need": ["ApproveMessages/ok", "RotateSigners/ok", "ValidateProof/ok"] + ([] if r == "9" else ["ApproveMessages/retention", "RotateSigners/retention"]),
+             "control": latest_proof_control}
+            for r in ["0", "1", "2", "9"]
+        ],
+        "level_text": "TLC proves honoured <=> epoch distance <= retention for approvals, proof checks and bypass rotations and 'plain rotation only by the newest set' on every reachable state; the instance keeps the route (1..3 initial sets, plain/bypass per epoch) in its state, so a proof from every installed epoch is replayed against the real gateway after every history of <= 6 epochs, for retention 0, 1, 2 and 9.",
+        "rule": "cases = transitions of the bounded TLC instances (one per retention setting) replayed against the contracts; distinct = distinct (route, action) pairs, each a proof from one installed epoch through one entry point",
+        "assumptions": ["soroban-env-host test mode implements on-chain semantics", "bounds: <= 6 epochs, retention in {0,1,2,9}, 1..3 initial sets"],
+    },
+    "C09": {
+        "title": "Rotations are rate-limited unless the operator bypasses the delay",
+        "policy": {"guards": ["delay", "operator_auth"], "fields": [], "events": [], "rets": []},
+        "jobs": [
+            {"kind": "graph", "spec": "MC_C09", "cfg": "MC_C09_%s" % d, "module": "Gateway", "evkinds": GW_EVENTS,
+             "need": ["RotateSigners/ok", "RotateSigners/operator_auth", "Tick/ok"] + ([] if d == "d0" else ["RotateSigners/delay"]),
+             "control": wait_longer_control}
+            for d in ["d0", "d1", "d10", "d10big"]
+        ],
+        "level_text": "TLC proves the delay limit, its completeness at the boundary, the clock rule (restart on every success incl. bypass, untouched on failure) and operator-only bypass on every reachable state; every transition (time steps of 1, D-1, D, D+1 interleaved with plain/bypass rotations that succeed or fail) is replayed against the real gateway with the ledger timestamp set by the harness.  The rotation clock is not observable; it is decided by the accept/reject outcome of every later rotation in the graph.",
+        "rule": "cases = transitions of the bounded TLC instances (one per minimum delay) replayed against the contracts; distinct = distinct (abstract pre-state incl. now and last rotation time, action) pairs",
+        "assumptions": ["soroban-env-host test mode implements on-chain semantics", "bounds: <= 4 epochs, delay in {0,1,10,10*2^40 s}, time horizon 2*delay+3"],
     },
 }
 
